@@ -150,6 +150,19 @@ CHECKS = {
         "Symbolic string outputs make equality of results equality of wiring terms. Values are atoms, never "
         "tuples (a tuple-valued wire is indistinguishable from two wires in the library's convention).",
         "DESIGN.md 4/C19"),
+    "C11": (
+        "exhaustive enumeration of all gates x grid phases, all pure circuits up to the bound and all "
+        "rewirings, evaluated by the real Circuit.eval and compared with pytket's own unitaries",
+        "Every named gate, every rotation and controlled rotation at every phase of the grid, controlled "
+        "named gates, kets and bras of every bitstring of length <= 2 and scalars: eval() must be the "
+        "standard matrix that pytket's Op.get_unitary() gives for the identically named operation (phase in "
+        "full turns), and dagger().eval() its conjugate transpose. Every pure circuit up to the depth/width "
+        "bound: eval() equals the ordered product of the reference matrices on the stated qubits, is unitary "
+        "when built from unitaries, and commutes with dagger. Every rewire(g, a, b) on up to 5 qubits equals "
+        "the gate embedded on qubits a and b.",
+        "Trusted: pytket Op.get_unitary (ILO-BE), numpy. Tolerance 1e-9; phases on the stated grid only "
+        "(entries are trigonometric polynomials of degree 1 in the phase).",
+        "DESIGN.md 4/C11"),
 }
 
 PENDING_REASON = ("check not built yet in this session (planned: bounded exhaustive exploration as in "
